@@ -107,6 +107,13 @@ static void codec_boundary_cases(const char* dir, uint64_t seed, int count) { ch
 static void lookalike_cases(const char* dir, uint64_t seed, int count) { char tag[160];
     for (int q = 0; q < count; q++) { int64_t n = 0; uint8_t* b = (uint8_t*)malloc(6000); int marks = 6 + (int)vrng_below(&R, 30);
         for (int m = 0; m < marks && n < 5000; m++) { int gap = (int)vrng_below(&R, 40); vrng_bytes(&R, b + n, (size_t)gap); n += gap; uint32_t L; int kind = (int)vrng_below(&R, 6);
+            if (vrng_chance(&R, 1, 3)) { /* a genuine-looking FileMetaData fragment in front of the marker, with the marker's length pointing exactly at it: complete, without its
+                                          * STOP byte, or lacking one or more of the required fields (version 1, schema 2, num_rows 3, row_groups 4) */
+                static const uint8_t PV[] = {0x02}; static const uint8_t PS[] = {0x2C, 0x48, 0x06, 's', 'c', 'h', 'e', 'm', 'a', 0x15, 0x02, 0x00, 0x15, 0x02, 0x25, 0x00, 0x18, 0x01, 'a', 0x00}; static const uint8_t PN[] = {0x00}; static const uint8_t PG[] = {0x0C};
+                static const struct { int id; int type; const uint8_t* p; int n; } F[4] = {{1, 5, PV, 1}, {2, 9, PS, 20}, {3, 6, PN, 1}, {4, 9, PG, 1}};
+                int mask = (int)vrng_below(&R, 16); if (vrng_chance(&R, 1, 2)) mask = 15; int stop = vrng_chance(&R, 2, 3); int64_t f0 = n; int last = 0;
+                for (int q = 0; q < 4; q++) if (mask & (1 << q)) { b[n++] = (uint8_t)(((F[q].id - last) << 4) | F[q].type); memcpy(b + n, F[q].p, (size_t)F[q].n); n += F[q].n; last = F[q].id; }
+                if (stop) b[n++] = 0x00; L = (uint32_t)(n - f0); memcpy(b + n, &L, 4); memcpy(b + n + 4, "PAR1", 4); n += 8; v_count("footer_fragments_embedded"); continue; }
             if (kind == 0) L = 0xFFFFFFFFu - (uint32_t)vrng_below(&R, 16); else if (kind == 1) L = (uint32_t)vrng_below(&R, 14); else if (kind == 2) L = (uint32_t)n + (uint32_t)vrng_below(&R, 60); else if (kind == 3) L = (uint32_t)n - (uint32_t)vrng_below(&R, (uint64_t)n + 1);
             else if (kind == 4) { static const uint32_t S[] = {0x7FFFFFFFu, 0x80000000u, 0x80000001u, 0xFFFF0000u, 0x00010000u, 0x7FFFFFF8u}; L = S[vrng_below(&R, 6)]; } else L = (uint32_t)vrng_u64(&R);
             memcpy(b + n, &L, 4); memcpy(b + n + 4, "PAR1", 4); n += 8; }
